@@ -23,7 +23,7 @@ Print Assumptions truthy_one.
    (value AND type; a catchable error where the reference says so), for all 64-bit ints, all
    binary64 floats incl. +-0, NaN, +-inf, all strings *)
 Theorem model_is_ref_on_D : forall lib o same l r,
-  inD o l r = true -> wf l = true -> wf r = true -> (same = true -> l = r) ->
+  inD lib o l r = true -> wf l = true -> wf r = true -> (same = true -> l = r) ->
   binop_eval lib same o l r = ref_binop lib o l r.
 Proof. exact model_is_ref_on_D_l. Qed.
 Print Assumptions model_is_ref_on_D.
